@@ -231,6 +231,183 @@ fn float_shape_ok(t: &str) -> bool {
     }
 }
 
+
+// ------------------------------------------------------------------ literal block scalars
+
+/// header (`|`, optional digit, optional chomping indicator) and body lines of the single literal block in `text`
+/// (the first line ends with the header); None when the serializer fell back to another style
+fn split_block(text: &str) -> Option<(Option<u32>, &'static str, Vec<String>)> {
+    let nl = text.find('\n')?;
+    let first = &text[..nl];
+    let bar = first.rfind('|')?;
+    let hdr = &first[bar + 1..];
+    let mut chars = hdr.chars().peekable();
+    let mut digit = None;
+    if let Some(c) = chars.peek().copied() {
+        if c.is_ascii_digit() {
+            digit = c.to_digit(10);
+            chars.next();
+        }
+    }
+    let chomp = match chars.next() {
+        None => "Clip",
+        Some('-') => "Strip",
+        Some('+') => "Keep",
+        Some(_) => return None,
+    };
+    if chars.next().is_some() || !first[..bar].chars().all(|c| matches!(c, 'k' | ':' | ' ' | '-')) {
+        return None;
+    }
+    let body = &text[nl + 1..];
+    let mut lines: Vec<String> = body.split('\n').map(|l| l.to_string()).collect();
+    if lines.last().map(|l| l.is_empty()).unwrap_or(false) {
+        lines.pop();
+    } else if !body.is_empty() {
+        return None; // a body without a final line break: not what the serializer writes
+    }
+    Some((digit, chomp, lines))
+}
+
+/// the value of the only literal scalar of `text` as the parser reads it (None: error or another structure)
+fn literal_of(text: &str, scalars_expected: usize) -> Option<String> {
+    let mut it = saphyr_parser::Parser::new_from_str(text);
+    let mut found = None;
+    let mut scalars = 0;
+    loop {
+        match it.next() {
+            Some(Ok((saphyr_parser::Event::Scalar(v, style, ..), _))) => {
+                scalars += 1;
+                if matches!(style, saphyr_parser::ScalarStyle::Literal) {
+                    if found.is_some() {
+                        return None;
+                    }
+                    found = Some(v.to_string());
+                }
+            }
+            Some(Ok(_)) => {}
+            Some(Err(_)) => return None,
+            None => break,
+        }
+    }
+    if scalars == scalars_expected { found } else { None }
+}
+
+fn lines_term(lines: &[String]) -> String {
+    coq::list(&lines.iter().map(|l| coq::s(l)).collect::<Vec<_>>(), "str")
+}
+
+/// K: what the serializer writes for LitString(v) (header, body lines) == emit_literal; what the parser reads from
+/// that text, and from perturbed headers / blank lines, == read_literal.  S: the round trip itself.
+fn block_scalars(ctx: &mut Ctx, quick: bool, rng: &mut crate::ctx::Rng) {
+    use serde_saphyr::LitString;
+    use std::collections::BTreeMap;
+    let alphabet = ['a', ' ', '\n', '\t', '#', ':', '-', 'é'];
+    let max_len = if quick { 4 } else { 5 };
+    let mut strings: Vec<String> = vec![String::new()];
+    let mut frontier = vec![String::new()];
+    for _ in 0..max_len {
+        let mut next = Vec::new();
+        for s in &frontier {
+            for c in alphabet {
+                let mut t = s.clone();
+                t.push(c);
+                next.push(t);
+            }
+        }
+        strings.extend(next.iter().cloned());
+        frontier = next;
+    }
+    for _ in 0..(if quick { 300 } else { 5000 }) {
+        let n = 5 + rng.below(20);
+        strings.push((0..n).map(|_| *rng.pick(&alphabet)).collect());
+    }
+    for v in &strings {
+        let pos = if quick { rng.below(3) } else { rng.below(3) };
+        let step = *rng.pick(&[2usize, 2, 2, 4, 3]);
+        let mut so = serde_saphyr::SerializerOptions::default();
+        so.indent_step = step;
+        let (text, prefix_scalars) = match pos {
+            0 => (serde_saphyr::to_string_with_options(&BTreeMap::from([("k", LitString(v.clone()))]), so), 1),
+            1 => (serde_saphyr::to_string_with_options(&LitString(v.clone()), so), 0),
+            _ => (serde_saphyr::to_string_with_options(&vec![LitString(v.clone())], so), 0),
+        };
+        let Ok(text) = text else {
+            ctx.count("block:serializer_error");
+            continue;
+        };
+        let Some((digit, chomp, lines)) = split_block(&text) else {
+            ctx.count("block:fallback_to_other_style");
+            continue;
+        };
+        ctx.count(&format!("block:position_{pos}_step_{step}"));
+        let replay = json!({"kind": "block", "s": v, "position": pos, "indent_step": step, "text": text});
+        // K1: the writer
+        ctx.case(format!("CLitEmit {} {} {} {chomp} {}", coq::n(step as u128), coq::s(v), coq::b(digit.is_some()), lines_term(&lines)), v.contains('\n') || v.starts_with(' '), replay.clone());
+        // the indicator counts from the parent's indentation (0 in all three positions)
+        if let Some(d) = digit {
+            ctx.direct_evaluations += 1;
+            if d as usize != step {
+                ctx.fail("block-indicator-value", format!("LitString({v:?}) at body indentation {step} is written with the indicator {d}: {text:?}"), replay.clone());
+            }
+        }
+        // K2: the reader on the very text
+        let got = literal_of(&text, prefix_scalars + 1);
+        // (at the very end of the input the parser gives a CLIPPED block of nothing but blank lines one line feed,
+        // elsewhere the empty string: the reader model is the "elsewhere" one, see the perturbed documents below)
+        if chomp == "Clip" && lines.iter().all(|l| l.chars().all(|c| c == ' ')) {
+            ctx.count("block:reader_case_skipped_blank_clip_at_end_of_input");
+        } else {
+            ctx.case(format!("CLitRead {} {chomp} {} {}", coq::opt(&digit, |d| coq::n(*d as u128)), lines_term(&lines), coq::opt(&got, |g| coq::s(g))), true, replay.clone());
+        }
+        // S: the round trip
+        ctx.direct_evaluations += 1;
+        if got.as_deref() != Some(v.as_str()) {
+            let only_breaks = v.chars().all(|c| c == '\n');
+            let class = if only_breaks { "block-round-trip-only-breaks" } else { "block-round-trip" };
+            ctx.fail(class, format!("LitString({v:?}) is written {text:?} and read back as {got:?}"), replay.clone());
+        }
+        // K3: perturbed headers and blank lines (map-value form), reader only
+        if pos == 0 && rng.chance(1, if quick { 3 } else { 1 }) {
+            let mut lines2 = lines.clone();
+            let mut digit2 = digit;
+            let mut chomp2 = chomp;
+            match rng.below(5) {
+                0 => chomp2 = *rng.pick(&["Strip", "Clip", "Keep"]),
+                1 => digit2 = if digit.is_some() && rng.chance(1, 2) { None } else { Some(1 + rng.below(4) as u32) },
+                2 => {
+                    let blanks: Vec<usize> = lines2.iter().enumerate().filter(|(_, l)| l.chars().all(|c| c == ' ')).map(|(i, _)| i).collect();
+                    if !blanks.is_empty() {
+                        let i = *rng.pick(&blanks);
+                        lines2[i] = " ".repeat(rng.below(step + 3));
+                    }
+                }
+                3 => {
+                    // (only when every other line is blank: a less indented `#` line is a comment, a less indented
+                    // line of tabs ends the scalar -- outside the model, which is given the scalar's own lines)
+                    if !lines2.is_empty() && lines2[1..].iter().all(|l| l.chars().all(|c| c == ' ')) {
+                        lines2[0] = format!("{}{}", " ".repeat(1 + rng.below(2)), lines2[0]);
+                    }
+                }
+                _ => {
+                    lines2.push(" ".repeat(rng.below(step + 2)));
+                    chomp2 = *rng.pick(&["Strip", "Clip", "Keep"]);
+                }
+            }
+            let hdr = format!("{}{}", digit2.map(|d| d.to_string()).unwrap_or_default(), match chomp2 { "Strip" => "-", "Keep" => "+", _ => "" });
+            let mut doc = format!("k: |{hdr}\n");
+            for l in &lines2 {
+                doc.push_str(l);
+                doc.push('\n');
+            }
+            // never at the end of the input (there the parser gives a clipped block of blank lines one line feed)
+            doc.push_str("j: 1\n");
+            let got2 = literal_of(&doc, 4);
+            ctx.case(format!("CLitRead {} {chomp2} {} {}", coq::opt(&digit2, |d| coq::n(*d as u128)), lines_term(&lines2), coq::opt(&got2, |g| coq::s(g))), true,
+                json!({"kind": "block_read", "text": doc}));
+        }
+    }
+}
+
 pub fn run(ctx: &mut Ctx) {
     util::quiet_panics();
     ctx.set_case_format("From SS Require Import Corr.SerScalar.\nLocal Open Scope N_scope.", "case", "check_case");
@@ -252,6 +429,12 @@ pub fn run(ctx: &mut Ctx) {
     }
     let quick = ctx.quick();
     let mut rng = ctx.rng.fork();
+
+    // ---- literal block scalars (own model: Model/BlockScalar.v)
+    {
+        let mut r2 = rng.fork();
+        block_scalars(ctx, quick, &mut r2);
+    }
 
     // ---- the strings
     let mut strings: Vec<String> = WORDS.iter().map(|s| s.to_string()).collect();
